@@ -21,7 +21,7 @@ ASSUMPTIONS = ['R5: ties in (grade, message length) may resolve to any such alte
                'single-alternative graders (real code) define what the input earns against one alternative']
 
 CREDITS = [0, 0.3, 0.5, 0.7, 1, 1]
-MSGS = ['', '', 'm', 'longer message', 'the longest message of them all', 'mm']
+MSGS = ['', '', 'm', 'longer message', 'the longest message of them all', 'mm', 'with {braces} {0} and 100%', u'unic\u00f6de \u2717 "q"']
 
 
 def gates(tier):
@@ -109,7 +109,7 @@ def run_item(ctx):
     for i in range(ctx.n(1600, 25000)):
         cls_name, base, pool, inputs = specs(rng)
         alts = make_alts(rng, pool)
-        wrong_msg = rng.choice(['', '', 'WRONG', 'WRONG: a deliberately very long generic message for wrong answers'])
+        wrong_msg = rng.choice(['', '', 'WRONG', 'WRONG: a deliberately very long generic message for wrong answers', 'WRONG {x} 50%'])
         try:
             singles = [build(cls_name, base, [a]) for a in split_singles(alts)]
         except Exception as exc:  # noqa
